@@ -86,6 +86,14 @@ impl ConnectionId {
     }
 }
 
+#[cfg(feature = "verif")]
+impl ConnectionId {
+    /// Verification hook: the raw connection number.
+    pub fn verif_as_usize(&self) -> usize {
+        self.0
+    }
+}
+
 impl Default for ConnectionId {
     fn default() -> Self {
         Self::new()
